@@ -10,7 +10,7 @@ A6 = bytes([0x61, 0x41, 0x3d, 0x00, 0xe9, 0x69])        # a A = NUL e-acute i   
 A4 = bytes([0x61, 0x41, 0x3d, 0x00])                    # a A = NUL
 A8 = A6 + bytes([0x49, 0xc9])                           # + I, E-acute
 TR = 'tr_TR.ISO-8859-9'
-MANDATORY = ('core', 'sizes', 'locale')                  # never skipped by the deadline
+MANDATORY = ('core', 'sizes', 'sequences', 'locale')                  # never skipped by the deadline
 TIMEOUT = 1500                                          # CPU seconds per case line (watchdog in the executor)
 
 
@@ -176,6 +176,58 @@ def preds(hexlist):
     return f"n={n if '..(' not in hexlist else 'many'},nul={int(any(re.search(r'^(..)*00', e.split('..')[0]) for e in ents))},empty={int('-' in ents)},long={int('..(len' in hexlist)}"
 
 
+# ------------------------------------------------------------------ call-sequence families (EDIT / REUSE), see the executor's header
+def nulfree(alpha, maxlen):
+    return [x for x in strings(alpha, maxlen) if 0 not in x]
+
+
+def seq_lines(tier):
+    """[(case text, expected number of sequences)] -- counts computed here, independently of the executor."""
+    out = []
+    big = tier != 'quick'
+    # EDIT grid: decoder-filled N (every residue of (N+1)%16 several times) x 1..K adds, both header paths
+    nmax, kmax, step = (80, 40, 4) if big else (40, 20, 3)
+    for lo in range(0, nmax + 1, step):
+        hi = min(nmax, lo + step - 1)
+        out.append((f'editgrid f C {lo} {hi} {kmax}', (hi - lo + 1) * kmax))
+    # EDIT exhaustive contents: (base maxlen, base n, added maxlen, added k, lines' first-index step)
+    for bl, bn, al, ak, per in ([(3, 0, 2, 1, 1), (3, 0, 2, 2, 1), (3, 1, 2, 1, 259), (3, 1, 2, 2, 12), (2, 2, 1, 1, 43)] + ([(2, 2, 2, 2, 1), (3, 1, 2, 3, 4)] if big else [])):
+        nb, nfa = len(strings(A6, bl)), len(nulfree(A6, al))
+        if bn == 0:
+            out.append((f'editenum c C {A6.hex()} {bl} 0 {al} {ak} 0 1', nfa ** ak))
+            continue
+        for lo in range(0, nb, per):
+            hi = min(nb, lo + per)
+            out.append((f'editenum c C {A6.hex()} {bl} {bn} {al} {ak} {lo} {hi}', (hi - lo) * nb ** (bn - 1) * nfa ** ak))
+    # REUSE grid: fill N>0, clear, add M>=0 without init, both header paths
+    nmax, mmax, step = (40, 40, 3) if big else (20, 20, 2)
+    for lo in range(1, nmax + 1, step):
+        hi = min(nmax, lo + step - 1)
+        out.append((f'reusegrid f C {lo} {hi} {mmax}', (hi - lo + 1) * (mmax + 1)))
+    # REUSE exhaustive contents: (first maxlen, first n, second maxlen, second n)
+    for al, an, bl, bn in ([(1, 1, 2, 0), (1, 1, 2, 1), (1, 1, 2, 2), (1, 2, 2, 0), (1, 2, 2, 1), (1, 2, 2, 2)] + ([(2, 1, 2, 2), (2, 2, 2, 1), (2, 2, 2, 2)] if big else [])):
+        nf1, nf2 = len(nulfree(A6, al)), len(nulfree(A6, bl))
+        per = nf1 if an == 1 else 1
+        for lo in range(0, nf1, per):
+            hi = min(nf1, lo + per)
+            out.append((f'reuseenum c C {A6.hex()} {al} {an} {bl} {bn} {lo} {hi}', (hi - lo) * nf1 ** (an - 1) * nf2 ** bn))
+    return out
+
+
+def seq_pred(variant, lst):
+    """Named predicate of a failing EDIT / REUSE sequence (for the finding key) and its single-sequence replay case."""
+    fam, _, nn = variant.partition(':N=')
+    N = int(nn or 0)
+    m = re.search(r'\.\.\((\d+) entries\)', lst)
+    n = int(m.group(1)) if m else (0 if lst.startswith('.') else len(lst.split(',')))
+    if fam == 'edit':
+        pred = f"adds_onto_decoder_filled_struct,(N+1)%16{'==0' if (N + 1) % 16 == 0 else '!=0'}"
+    else:
+        pred = f"refill_after_clear_without_init,M{'=0' if n - N == 0 else '>0'}"
+    one = None if '..(' in lst else f'{fam}1 MODE LOC {N} {lst}'
+    return fam, pred, one, N, n - N
+
+
 def locate_died(exe, vendor, case):
     """Re-run a case that killed its worker alone with --trace: the trace file then holds the list being processed."""
     tr = os.path.join(vlib.BUILD, 'tmp', f'c16.trace.{os.getpid()}')
@@ -183,7 +235,7 @@ def locate_died(exe, vendor, case):
         vlib.run_cases(exe, [case], ['--vendor', vendor, '--timeout', str(TIMEOUT), '--trace', tr], jobs=1, tag='c16t')
         lst = open(tr).read().strip()
         os.unlink(tr)
-        return lst
+        return tuple((lst.split(' ', 1) + ['-'])[:2]) if ' ' in lst else ('-', lst)
     except Exception:
         return None
 
@@ -201,7 +253,7 @@ def run(tier):
         counts, countsz = [0, 1, 2, 1000, 5000], [1, 2, 1000, 5000]
         lens = [0, 1, 255, 65535, 65536, 300000]
         qsubs = [Sub(A6, 3, 1, per_line=259), Sub(A6, 3, 2, per_line=8)]
-        batches = [('core', subs[:4]), ('sizes', None), ('locale', qsubs), ('a4n3', subs[4:])]
+        batches = [('core', subs[:4]), ('sizes', None), ('sequences', None), ('locale', qsubs), ('a4n3', subs[4:])]
     else:
         core = [Sub(A6, 3, 0), Sub(A6, 3, 1, per_line=259), Sub(A6, 3, 2, per_line=4)]
         n3 = [Sub(A6, 3, 3, per_line=1)]
@@ -212,13 +264,13 @@ def run(tier):
         counts, countsz = [0, 1, 2, 3, 1000, 5000, 10000], [1, 2, 3, 1000, 5000]
         lens = [0, 1, 2, 3, 254, 255, 256, 65535, 65536, 65537, 300000, 1000000]
         qsubs = [Sub(A6, 3, 1, per_line=259), Sub(A6, 3, 2, per_line=4), Sub(A6, 2, 3, per_line=1)]
-        batches = [('core', core), ('sizes', None), ('locale', qsubs), ('n3', n3), ('wide', wide), ('long4', long4), ('n4', n4)]
+        batches = [('core', core), ('sizes', None), ('sequences', None), ('locale', qsubs), ('n3', n3), ('wide', wide), ('long4', long4), ('n4', n4)]
     assert_disjoint(subs)
     sizes = [f'count f C {n}' for n in counts] + [f'countz f C {n}' for n in countsz] + [f'len f C {l}' for l in lens] + ['all256 f C', 'fold256 f C']
     enum_maxlen = max(s.maxlen for s in subs)
     enum_maxn = max(s.n for s in subs)
 
-    tot = dict(lists=0, nontriv=0, variants=0, api=0, rts=0, queries=0, qnonnull=0, qcase=0, qmulti=0, nulents=0, nulrt=0, big=0, amb=0)
+    tot = dict(lists=0, nontriv=0, variants=0, api=0, rts=0, queries=0, qnonnull=0, qcase=0, qmulti=0, nulents=0, nulrt=0, big=0, amb=0, seqs=0, seqok=0)
     per_sub = []
     samples = []
     complete = True
@@ -227,18 +279,23 @@ def run(tier):
     distinct = 0
     maxlen_rt = 0
 
+    seq_stats = {}
+
     def judge(case, res, expect, count_distinct):
         nonlocal distinct, maxlen_rt, incomplete_lines
         r = res or 'NOOUTPUT'
         f = fields(r)
-        chk.cov['evaluations'] += max(1, int(f.get('lists', 0)) if r[:3] in ('ok ', 'bad') else 1)   # one evaluation = one comment list put through the oracle
+        is_seq = case.split()[0] in ('editgrid', 'editenum', 'reusegrid', 'reuseenum', 'edit1', 'reuse1')
+        # one evaluation = one comment list (or one EDIT / REUSE call sequence) put through the oracle
+        chk.cov['evaluations'] += max(1, int(f.get('lists', 0)) + int(f.get('seqs', 0))) if r[:3] in ('ok ', 'bad') else 1
         chk.cov['case_lines'] = chk.cov.get('case_lines', 0) + 1
+        mode_loc = case.split()[1:3]
         if r.startswith('ok') or r.startswith('bad:'):
             for k in tot:
                 tot[k] += int(f.get(k, 0))
             maxlen_rt = max(maxlen_rt, int(f.get('maxlen', 0)))
         if r.startswith('ok'):
-            if expect is not None and int(f['lists']) != expect:
+            if expect is not None and int(f['seqs' if is_seq else 'lists']) != expect:
                 incomplete_lines += 1
             if count_distinct:
                 if f.get('sig', '-') == '-':
@@ -246,25 +303,34 @@ def run(tier):
                 else:
                     size_sigs[f['sig']] = (int(f['nontriv']), int(f['maxlen']), case)
             return True
+        rp = {'from_case': case, 'vendor': vendor, 'LOCPATH': os.environ.get('LOCPATH')}
         if r.startswith('bad:'):
             what = r.split(' ')[0]
             cls = ':'.join(what.split(':')[1:3])
             first = f.get('first', '-/-/-')
             variant, path, lst = (first.split('/', 2) + ['-', '-'])[:3]
+            if variant.startswith('edit:') or variant.startswith('reuse:'):
+                fam, pred, one, N, M = seq_pred(variant, lst)
+                one = one and one.replace('MODE LOC', ' '.join(mode_loc))
+                chk.violation(f'{cls}:{fam}/{path}:{pred}', f'{what} in sequence {variant} (then {M} adds), entries {lst} ({f.get("nfail")} failing checks in "{case}")', dict(rp, case=one or case))
+                return False
             one = None
             if '..(' not in lst:
-                one = ' '.join(['one'] + case.split()[1:3] + [lst])
-            chk.violation(f'{cls}:{variant}/{path}:{preds(lst)}', f'{what} on list {lst} ({f.get("nfail")} failing checks in sub-space "{case}")',
-                          {'case': one or case, 'from_case': case, 'vendor': vendor, 'LOCPATH': os.environ.get('LOCPATH')})
+                one = ' '.join(['one'] + mode_loc + [lst])
+            chk.violation(f'{cls}:{variant}/{path}:{preds(lst)}', f'{what} on list {lst} ({f.get("nfail")} failing checks in sub-space "{case}")', dict(rp, case=one or case))
             return False
         # worker died (ASan / signal) or watchdog
-        lst = locate_died(exe, vendor, case) if (r.startswith('DIED') or r.startswith('TIMEOUT')) else None
+        variant, lst = locate_died(exe, vendor, case) or ('-', None) if (r.startswith('DIED') or r.startswith('TIMEOUT')) else ('-', None)
         kind = 'timeout' if r.startswith('TIMEOUT') else ('memory_error' if 'rc=77' in r or 'Sanitizer' in r else 'died')
+        if lst and (variant.startswith('edit:') or variant.startswith('reuse:')):
+            fam, pred, one, N, M = seq_pred(variant, lst)
+            one = one and one.replace('MODE LOC', ' '.join(mode_loc))
+            chk.violation(f'{kind}:{fam}:{pred}', f'{r[:1500]} in sequence {variant} (then {M} adds), entries {lst} of "{case}"', dict(rp, case=one or case))
+            return False
         one = None
         if lst and '..(' not in lst:
-            one = ' '.join(['one'] + case.split()[1:3] + [lst])
-        chk.violation(f'{kind}:{preds(lst) if lst else case.split()[0]}', f'{r[:1500]} while processing list {lst} of "{case}"',
-                      {'case': one or case, 'from_case': case, 'vendor': vendor, 'LOCPATH': os.environ.get('LOCPATH')})
+            one = ' '.join(['one'] + mode_loc + [lst])
+        chk.violation(f'{kind}:{preds(lst) if lst else case.split()[0]}', f'{r[:1500]} while processing list {lst} of "{case}"', dict(rp, case=one or case))
         return False
 
     # heaviest size cases first so that round-robin sharding spreads them
@@ -282,6 +348,11 @@ def run(tier):
     for bname, bsubs in batches:
         if bname == 'sizes':
             work.append(('sizes', 's', [(None, c, None) for c in order]))
+            continue
+        if bname == 'sequences':
+            # heaviest lines first (round-robin sharding)
+            sl = sorted(seq_lines(tier), key=lambda t: -t[1])
+            work.append(('sequences', 'e', [(None, t, e) for t, e in sl]))
             continue
         if bname == 'locale':
             if loc2:
@@ -320,6 +391,8 @@ def run(tier):
         res = vlib.run_cases(exe, [l[1] for l in lines], args, tag='c16' + kind)
         for (s, text, exp), r in zip(lines, res):
             judge(text, r, exp, kind in 'fs')
+        if kind == 'e':
+            seq_stats.update({'case_lines': len(lines), 'sequences_expected': sum(e for _, _, e in lines), 'sequences_run': tot['seqs'] - before['seqs'], 'sequences_ok': tot['seqok'] - before['seqok']})
             if s is not None:
                 agg[id(s)][1] += int(fields(r or '').get('lists', 0))
         if kind == 's':
@@ -335,7 +408,7 @@ def run(tier):
             hx = lambda b: b.hex() or '-'
             samples.append({'first_list_of_that_subspace_line': [hx(sub.S[lo])] + [hx(sub.S[0])] * (sub.n - 1),
                             'last_list_of_that_subspace_line': [hx(sub.S[hi - 1])] + [hx(sub.S[-1])] * (sub.n - 1), 'entries': 'hex, - = empty entry'})
-        print(f'  chunk {bname}: {len(lines)} case lines, {tot["lists"] - before["lists"]} lists, {time.time() - t1:.1f}s', file=sys.stderr)
+        print(f'  chunk {bname}: {len(lines)} case lines, {tot["lists"] - before["lists"]} lists, {tot["seqs"] - before["seqs"]} call sequences, {time.time() - t1:.1f}s', file=sys.stderr)
     for s, got in agg.values():
         per_sub.append({'subspace': s.name(), 'lists_in_subspace': s.total(), 'lists_run': got})
 
@@ -361,6 +434,7 @@ def run(tier):
         'size_cases': {'counts': counts, 'counts_with_embedded_nul': countsz, 'lengths': lens, 'other': ['all256', 'fold256 (256 entries X"=v" x all 255 one-byte tags)']},
         'totals': dict(tot, max_entry_length_round_tripped=maxlen_rt),
         'locales': locs,
+        'call_sequences': dict(seq_stats, families='EDIT: decode N entries, then 1..K vorbis_comment_add/_add_tag onto the decoder-filled structure, write, decode, compare; REUSE: fill N>0, vorbis_comment_clear, add M>=0 without vorbis_comment_init, write, decode, compare'),
         'batches_skipped_by_deadline': skipped,
         'second_locale_pass': loc_pass,
         'vendor_expected': vendor,
@@ -372,6 +446,8 @@ def run(tier):
         'a model entry matches tag T iff its first |T|+1 bytes equal T"=" under A-Z/a-z folding, using the explicit length; the C-string reading (entry cut at its first NUL) is computed too and a tag whose two readings differ is not judged '
         f'(happened {tot["amb"]} times: T"=" contains no NUL, so both readings coincide); entries built directly in the structure are zero-terminated after their explicit length, as the decode library does',
         'zero termination of decoded entries (user_comments[i][len]==0) is judged because doc/libvorbis/vorbis_comment.html promises it; user_comments[count]==NULL is not judged',
+        'REUSE family: a structure emptied by vorbis_comment_clear is required to behave like a freshly initialised one for later vorbis_comment_add calls and header output (the documentation only says the storage is freed; the implementation zeroes the structure and applications reuse it per track)',
+        'EDIT family: vorbis_comment_add / _add_tag are applied to the structure filled by vorbis_synthesis_headerin (tag-editor use); its vendor must survive the adds',
         'indices 0..count+1 only; negative indices and NULL tags are outside the property',
         'structures built by hand are freed by hand (doc: do not mix with vorbis_comment_clear); vorbis_comment_clear is used for API-built and decoded structures',
         locnote,
@@ -384,6 +460,7 @@ def run(tier):
     chk.guard(int(fold.get('qcase', 0)) >= 52 or chk.violations, 'fold256: every letter matched its other-case partner on both structures')
     chk.guard(incomplete_lines == 0, 'every enumerated sub-space ran exactly the number of lists computed independently in Python')
     chk.guard(tot['amb'] == 0, 'no query was skipped as ambiguous')
+    chk.guard(seq_stats.get('sequences_run', 0) > 0 and (seq_stats.get('sequences_run') == seq_stats.get('sequences_expected') or chk.violations), 'every EDIT / REUSE call sequence computed in Python was run')
     if loc2:
         chk.guard(loc_pass['qcase'] > 0 or not complete, 'case-differing matches were exercised under the second locale')
     return chk.finish()
